@@ -54,6 +54,16 @@ def scenario(rng):
                      "(begin (define n 0) (define (helper) (quote hidden%d)) (define (next%d) (set! n (+ n 1)) n) "
                      "(define (peek%d) n) (define (probe%d) importer-secret) (define aux%d 77) (define (get-aux%d) aux%d)) (begin (set! phase%d (+ phase%d 2))) %s)" % (exports, k, k, k, k, k, k, k, k, k, tail))
         libs["s%d" % k] = {"peek": ext_peek, "peeks": peek_names, "step": step}
+    # a library that ASSIGNS a name it imported, for its own use (s0: `max`/`min` clamped), next to libraries with exactly the same
+    # import declaration that USE that name (s1 if there is one, and `(pl)`): each library's environment is made of its OWN copy of
+    # its imports, so the assignment is seen by s0's procedures only - not by the other libraries, not by the program
+    patched = None
+    if rng.random() < 0.5:
+        patched = rng.choice(["max", "min"])
+        files[0] = files[0][:-1] + " (export big0) (begin (define old-op %s) (set! %s (lambda (a b) (old-op 100 (old-op a b)))) (define (big0 a b) (%s a b))))" % (patched, patched, patched)
+        if nstate > 1:
+            files[1] = files[1][:-1] + " (export big1) (begin (define (big1 a b) (%s a b))))" % patched
+        files.append("Fpl.sld=(define-library (pl) (import (scheme base)) (export plain-big) (begin (define (plain-big a b) (%s a b))))" % patched)
     # wrapper libraries wJ importing some state libs (and earlier wrappers), exporting bumpers
     nwrap = rng.randrange(0, 3)
     wrappers = []
@@ -69,7 +79,9 @@ def scenario(rng):
     count = [0] * nstate
     forms, expect = [], []
     imported_direct = [k for k in range(nstate) if rng.random() < 0.8]
-    imp = ["(scheme base)"] + ["(s%d)" % k for k in imported_direct] + ["(w%d)" % j for j, _ in wrappers]
+    if patched:
+        imported_direct = list(range(nstate))
+    imp = ["(scheme base)"] + ["(s%d)" % k for k in imported_direct] + ["(w%d)" % j for j, _ in wrappers] + (["(pl)"] if patched else [])
     rng.shuffle(imp)
     imp = ["(scheme base)"] + [x for x in imp if x != "(scheme base)"]
     forms.append("(import %s)" % " ".join(imp)); expect.append("N")
@@ -77,6 +89,17 @@ def scenario(rng):
     helper_defined = False
     for _ in range(rng.randrange(6, 20)):
         op = rng.random()
+        if patched and rng.random() < 0.25:
+            a, b = rng.randrange(-50, 300), rng.randrange(-50, 300)
+            pyop = max if patched == "max" else min
+            which = rng.choice(["big0", "plain-big", "program"] + (["big1"] if nstate > 1 else []))
+            if which == "big0":
+                forms.append("(big0 %d %d)" % (a, b)); expect.append("V i:%d" % pyop(100, pyop(a, b)))
+            elif which == "program":
+                forms.append("(%s %d %d)" % (patched, a, b)); expect.append("V i:%d" % pyop(a, b))
+            else:
+                forms.append("(%s %d %d)" % (which, a, b)); expect.append("V i:%d" % pyop(a, b))
+            continue
         if op < 0.12 and imported_direct and any(libs["s%d" % k]["step"] for k in imported_direct):
             # the second external name of the counter: the same binding, untouched by the importer's redefinition of the first
             k = rng.choice([k for k in imported_direct if libs["s%d" % k]["step"]])
@@ -159,7 +182,7 @@ def main(tier, seed):
     rep = C.Report(PROP, tier, seed)
     rng = random.Random(seed)
     rep.cov["rule"] = ("random scenarios: 1-2 stateful counter libraries (exports with and without rename, one binding under several external names, specs in any order over one or two export declarations, unexported helper, a "
-                       "procedure that refers to an importer variable), 0-2 wrapper libraries importing them directly or through "
+                       "procedure that refers to an importer variable; in half of the scenarios one library assigns a name it imported while libraries with the same import declaration use that name), 0-2 wrapper libraries importing them directly or through "
                        "another wrapper, an importing program of 6-20 forms that calls, reads, redefines imported names and "
                        "defines colliding names; as files under a program directory; distinct = distinct scenarios")
     ok = C.standard_proof_phase(rep, MODULES, directed_search=lambda r: run(r, tier, rng))
